@@ -10,6 +10,7 @@ use std::collections::HashMap;
 use std::fs::File;
 use std::io::BufReader;
 use std::io::Read;
+use std::io::Seek;
 use std::io::Write;
 use std::path::Path;
 
@@ -265,50 +266,75 @@ impl<'a> Reader<'a> {
         Ok(())
     }
 
-    fn read_signature(&mut self) -> anyhow::Result<()> {
-        let mut buf: [u8; 4] = [0; 4];
-        self.r.read_exact(&mut buf[..])?;
-        if buf.as_slice() != "n2db".as_bytes() {
+    /// Returns false if the file ends before the end of the signature, which
+    /// happens when we were interrupted while creating it.
+    fn read_signature(&mut self) -> anyhow::Result<bool> {
+        let mut buf: [u8; 8] = [0; 8];
+        let mut n = 0;
+        while n < buf.len() {
+            match self.r.read(&mut buf[n..])? {
+                0 => break,
+                m => n += m,
+            }
+        }
+        if !"n2db".as_bytes().starts_with(&buf[..n.min(4)]) {
             bail!("invalid db signature");
         }
-        self.r.read_exact(&mut buf[..])?;
-        let version = u32::from_le_bytes(buf);
+        if n < buf.len() {
+            return Ok(false);
+        }
+        let version = u32::from_le_bytes(buf[4..].try_into().unwrap());
         if version != VERSION {
             bail!("db version mismatch: got {version}, expected {VERSION}; TODO: db upgrades etc");
         }
-        Ok(())
+        Ok(true)
     }
 
-    fn read_file(&mut self) -> anyhow::Result<()> {
-        self.read_signature()?;
+    fn read_record(&mut self) -> std::io::Result<()> {
+        let mut len = self.read_u16()?;
+        let mask = 0b1000_0000_0000_0000;
+        if len & mask == 0 {
+            self.read_path(len as usize)
+        } else {
+            len &= !mask;
+            self.read_build(len as usize)
+        }
+    }
+
+    /// Reads all complete records and returns the length of the valid prefix
+    /// of the file.  A record cut short at the end of the file (we died while
+    /// appending it) is not an error; it is dropped.
+    fn read_file(&mut self) -> anyhow::Result<u64> {
+        if !self.read_signature()? {
+            return Ok(0);
+        }
+        let mut valid_len = self.r.stream_position()?;
         loop {
-            let mut len = match self.read_u16() {
-                Ok(r) => r,
+            match self.read_record() {
+                Ok(()) => valid_len = self.r.stream_position()?,
                 Err(err) if err.kind() == std::io::ErrorKind::UnexpectedEof => break,
                 Err(err) => bail!(err),
-            };
-            let mask = 0b1000_0000_0000_0000;
-            if len & mask == 0 {
-                self.read_path(len as usize)?;
-            } else {
-                len &= !mask;
-                self.read_build(len as usize)?;
             }
         }
-        Ok(())
+        Ok(valid_len)
     }
 
     /// Reads an on-disk database, loading its state into the provided Graph/Hashes.
-    fn read(f: &mut File, graph: &mut Graph, hashes: &mut Hashes) -> anyhow::Result<IdMap> {
+    /// Also returns the length of the valid prefix of the file.
+    fn read(
+        f: &mut File,
+        graph: &mut Graph,
+        hashes: &mut Hashes,
+    ) -> anyhow::Result<(IdMap, u64)> {
         let mut r = Reader {
             r: std::io::BufReader::new(f),
             ids: IdMap::default(),
             graph,
             hashes,
         };
-        r.read_file()?;
+        let valid_len = r.read_file()?;
 
-        Ok(r.ids)
+        Ok((r.ids, valid_len))
     }
 }
 
@@ -320,8 +346,17 @@ pub fn open(path: &Path, graph: &mut Graph, hashes: &mut Hashes) -> anyhow::Resu
         .open(path)
     {
         Ok(mut f) => {
-            let ids = Reader::read(&mut f, graph, hashes)?;
-            Ok(Writer::from_opened(ids, f))
+            let (ids, valid_len) = Reader::read(&mut f, graph, hashes)?;
+            // Drop a partially written trailing record so that what we append
+            // follows a complete record.
+            if f.metadata()?.len() != valid_len {
+                f.set_len(valid_len)?;
+            }
+            let mut w = Writer::from_opened(ids, f);
+            if valid_len == 0 {
+                w.write_signature()?;
+            }
+            Ok(w)
         }
         Err(err) if err.kind() == std::io::ErrorKind::NotFound => {
             let w = Writer::create(path)?;
